@@ -4,6 +4,7 @@
     the pinned tree ([pinned_prog], [pinned_wrules]): each is the reason for one fix: commit. *)
 From Coq Require Import List String ZArith Bool.
 From Inovesa Require Import Model.OptionsTypes Model.Options Gen.Gen_Options Proofs.OptionsP Proofs.OptionsThm Proofs.OptionsRT Proofs.OptionsRT2 Proofs.OptionsRT3.
+From Inovesa Require Model.CfgText Proofs.CfgTextGenP.
 Import ListNotations.
 Local Open Scope string_scope.
 
@@ -365,4 +366,45 @@ Example save_reload_with_overrides_example :
     end
   | _ => False
   end.
+Proof. vm_compute. reflexivity. Qed.
+
+(** ** The text of the saved file (strengthening after seeded change C13-H: string values with blanks written in quotes)
+
+    Everything above is about opaque value tokens: a saved file is a list of (name, token) items and the re-reading
+    invocation is handed those items ([saved_items]) - for a STRING option this silently assumes that the text save()
+    writes for the value, read by boost's config-file reader, is the value again.  Model/CfgText.v models both sides as
+    text: [read_text] is `common_config_file_iterator::get()` over the `std::getline` loop ('#' starts a comment, the line
+    and both sides of the first '=' are trimmed of blank/tab/CR/LF, quotes and backslashes mean nothing), and
+    [gen_string_line] is the `ofs << ...` chain of save()'s string branch as translate/options2coq.py reads it on every
+    run.  [saved_string_line_reread]: for the generated chain, every string option of the generated table (their names are
+    plain words) and every value a line can hold ([cfg_representable]: no '#', no line feed, no white space at either end;
+    inner blanks and tabs, quotes, backslashes, '=' and the empty string included) the written text is read back as exactly
+    that (name, value).  This discharges the assumption for representable values.  For the others the token-level round
+    trip does NOT describe the program: [saved_string_roundtrip_refuted] (a finding on the real code, see docs/built/C13.md). *)
+Theorem saved_string_line_reread :
+  (forall o, In o gen_table -> o_ty o = TString -> CfgText.name_ok (CfgText.text_of_string (o_name o)) = true) /\
+  (forall n v, CfgText.name_ok n = true -> CfgText.cfg_representable v = true ->
+     CfgText.read_text (CfgText.write_pieces gen_string_line n v) = [CfgText.LOption n v] /\
+     CfgText.reread gen_string_line n v = Some [(n, v)]).
+Proof. exact CfgTextGenP.saved_string_line_reread_thm. Qed.
+Print Assumptions saved_string_line_reread.
+
+(** "every string value comes back from the saved file" is refuted for the current writer and reader: `-o run#3.h5` comes
+    back as `run`, ` a.h5` as `a.h5`, `t<TAB>` as `t`; a value with a line feed adds a second line, read as another option
+    (`GridSize=7`) or refused (no '=') *)
+Theorem saved_string_roundtrip_refuted :
+  let T := CfgText.text_of_string in
+  CfgText.reread gen_string_line (T "output") (T "run#3.h5") = Some [(T "output", T "run")] /\
+  CfgText.reread gen_string_line (T "output") (T " a.h5") = Some [(T "output", T "a.h5")] /\
+  CfgText.reread gen_string_line (T "tracking") (T CfgTextGenP.w_tab) = Some [(T "tracking", T "t")] /\
+  CfgText.reread gen_string_line (T "output") (T CfgTextGenP.w_lf_option)
+    = Some [(T "output", T "a.h5"); (T "GridSize", T "7")] /\
+  CfgText.reread gen_string_line (T "output") (T CfgTextGenP.w_lf_junk) = None.
+Proof. exact CfgTextGenP.saved_string_roundtrip_refuted_thm. Qed.
+Print Assumptions saved_string_roundtrip_refuted.
+
+(** the hypothesis of [saved_string_line_reread] is satisfiable where it matters: paths with inner blanks, '=', quotes *)
+Example saved_string_line_reread_example :
+  CfgText.reread gen_string_line (CfgText.text_of_string "output") (CfgText.text_of_string "scan 01/run = ""a"".h5")
+  = Some [(CfgText.text_of_string "output", CfgText.text_of_string "scan 01/run = ""a"".h5")].
 Proof. vm_compute. reflexivity. Qed.
